@@ -1,5 +1,5 @@
 PROP = {
-    "thm": ["Umya.Thm.C01", "Umya.Thm.C01Bytes"],
+    "thm": ["Umya.Thm.C01", "Umya.Thm.C01Bytes", "Umya.Thm.C01Gen"],
     "harness": "c01",
     "level": "proof",
     "stateful": True,
@@ -15,7 +15,7 @@ PROP = {
     "level_note": "Trusted: Lean kernel + 3 standard axioms; the hand model as exercised; XML as lexed facts (quick-xml's tag syntax / event splitting is modelled at fact level, "
                   "its escape/unescape/trim_text on characters); numbers are opaque tokens with print-then-parse = id as a hypothesis (Rust f64 Display/FromStr, sampled); "
                   "content hash of shared-string items assumed injective; run properties of rich text are an opaque token assumed to survive (C05).",
-    "expect_theorems": ["C01_bytes_text_identity", "C01_bytes_text_identity_conversion", "C01_bytes_attr_identity", "C01_channels_match_source", "C01_unescape_escape", "C01_unescape_partial_escape", "C01_text_nodes", "C01_cell_roundtrip", "C01_index_resolves",
+    "expect_theorems": ["C01_datatype_matches_source", "C01_bytes_text_identity", "C01_bytes_text_identity_conversion", "C01_bytes_attr_identity", "C01_channels_match_source", "C01_unescape_escape", "C01_unescape_partial_escape", "C01_text_nodes", "C01_cell_roundtrip", "C01_index_resolves",
                         "C01_roundtrip", "C01_light_same", "C01_normalize", "C01_sheet_roundtrip",
                         "C01_trimmed_read_fails", "C01_lazy_fails", "C01_rich_under_formula_fails", "C01_rich_no_runs_fails"],
     "rule": "workbooks (quick 300 / thorough 5000) of 1-4 sheets and 0-400 cells built through the public API (set_value, set_value_string, set_value_number, set_value_bool, "
